@@ -4,8 +4,10 @@ import importlib
 MODULES = ['cat_belt', 'cat_misc', 'cat_core', 'cat_bign', 'cat_bake', 'cat_bels', 'cat_sig', 'cat_tok', 'cat_codec']
 
 def all_cases(tier, groups=None):
+    import os
     out = []
-    for m in MODULES:
+    mods = os.environ.get('VERIF_CORPORA')       # development aid: restrict the corpora to some modules
+    for m in (mods.split(',') if mods else MODULES):
         try:
             mod = importlib.import_module(m)
         except ModuleNotFoundError as e:
